@@ -2128,7 +2128,7 @@ struct Explorer {
         if (dyndep_load_event >= 0 && !Started(r, cs.id)) early = true;   // was up to date: not in the plan
       }
       // is an edge of the cycle there only because a dyndep file makes a node an (implicit) output of a statement?
-      bool via_dyn_out = false;
+      bool via_dyn_out = false, consumer_idle = false;
       for (int si : cyc_stmts) {
         const Stmt& ds = v->stmts[si];
         if (ds.dyndep.empty()) continue;
@@ -2136,11 +2136,16 @@ struct Explorer {
           if (find(ds.outs.begin(), ds.outs.end(), o) != ds.outs.end()) continue;   // declared in the manifest
           for (int ti : cyc_stmts) {
             vector<string> tin = EffectiveInputs(*v, v->stmts[ti], before, &after, nullptr);
-            if (find(tin.begin(), tin.end(), o) != tin.end()) via_dyn_out = true;
+            if (find(tin.begin(), tin.end(), o) != tin.end()) {
+              via_dyn_out = true;
+              // the consumer had nothing to do (up to date against the file on disk) and was not run
+              if (!v->stmts[ti].phony && !Started(r, v->stmts[ti].id)) consumer_idle = true;
+            }
           }
         }
       }
       x.facts.set("cycle_runs_through_an_output_supplied_by_dyndep_information", via_dyn_out);
+      x.facts.set("the_consumer_of_that_output_was_up_to_date_and_not_run", consumer_idle);
       x.facts.set("ninja_stopped_with_an_error", r.exit_code != 0);
       // (an undiagnosed cycle ends in success or in 'stuck'; any other error message is some other failure)
       x.facts.set("ninja_stopped_with_an_error_other_than_stuck",
